@@ -22,7 +22,7 @@ CLAIMED['C17'] = dict(
     text='Unbounded proof that the real source of booleq.Eq, And, Or, simplify_exprs[_And/_Or] and every override of '
          'BooleanTerm.simplify meets contracts taken from the property: result is logically equivalent (under an arbitrary '
          'valuation / every valuation drawn from the assignments table) and in flattened/absorbed normal form; in-place '
-         'mutation of a set borrowed from an existing term is a frame obligation.',
+         'mutation of a set borrowed from an existing term is a frame obligation. Second theory: the hand-written __eq__/__hash__ of _Eq/_And/_Or are structural and lawful (proof harness over the inlined real methods), which discharges the structural-equality assumption of the first theory.',
     note='Trusted: engine/, z3, A-ADT (no further BooleanTerm subclasses; checked syntactically), A-EQ (set membership of terms is '
          'structural equality: __eq__/__hash__ of _Eq/_And/_Or not under contract), precondition: every _Eq has a variable on one side. '
          'Unverified surround: Solver.solve, extract_pivots, type_match.py.',
@@ -45,10 +45,10 @@ CLAIMED['C10'] = dict(
          'Dedup and MROMerge computes exactly the chain of CPython pmerge steps (candidate = head of the first sequence whose head '
          'is in no tail; advance every sequence with that head) and raises iff the chain gets stuck. Class.compute_mro, which builds '
          'the rows (and now refuses duplicate bases), and attribute lookup are covered only by a bounded sweep through the real VM '
-         'against type(). Second theory: Class.compute_mro -- refuses a repeated base, hands MROMerge exactly the rows [[C], L[B1], ..., L[Bn], [B1..Bn]] with parameterised classes stripped, and its stripped result is the pmerge step chain from those rows to the all-empty state; MROError only for a repeated base or a stuck merge.',
+         'against type(). Second theory: Class.compute_mro -- refuses a repeated base, hands MROMerge exactly the rows [[C], L[B1], ..., L[Bn], [B1..Bn]] with parameterised classes stripped, and its stripped result is the pmerge step chain from those rows to the all-empty state; MROError only for a repeated base or a stuck merge. MergeSequences/MROMerge are also proved to return only classes of their input rows (so compute_mro never raises KeyError).',
     note='Trusted: engine/, z3, A-SPEC (StepP transliterates typeobject.c pmerge; validated against type() on every hierarchy of '
          '<=5 classes), preconditions: distinct elements per row (Dedup), no SINGLETON classes, inner lists are distinct objects. '
-         'compute_mro/_ComputeMRO/attribute lookup: bounded only. compute_mro theory: abstract_utils.get_mro_bases opaque; A-MERGE-ELEMS (merge result elements occur in the input rows: assumed, used only for absence of KeyError). _ComputeMRO/GetBasesInMRO (stub classes), attribute lookup: bounded only.',
+         'compute_mro/_ComputeMRO/attribute lookup: bounded only. compute_mro theory: abstract_utils.get_mro_bases opaque; _ComputeMRO/GetBasesInMRO (stub classes), attribute lookup: bounded only.',
     technique='contract-based deductive verification: Python ast -> VC generator (ghost history, loop invariants, alias write-through) -> z3',
     design='8.3, 3 C10')
 
@@ -56,10 +56,10 @@ CLAIMED['C13'] = dict(
     text='Unbounded proof that the real source of SignedFunction._map_args raises a FailedFunctionCall subclass iff one of the five '
          'CPython binding rules is violated (too many positionals; multiple values; unexpected keyword incl. positional-only named '
          'without **kwargs; missing positional; missing keyword-only) and on success gives every parameter exactly the argument CPython '
-         'gives it (positional / keyword / default / *args tuple / **kwargs dict). Through-the-VM behaviour is sampled by a bounded sweep against real calls.',
+         'gives it (positional / keyword / default / *args tuple / **kwargs dict). Through-the-VM behaviour is sampled by a bounded sweep against real calls. Both instances of _map_args are proved: self a SignedFunction and self an InterpreterFunction (argcount / get_nondefault_params overridden; the generator is verified as the builder of the list it yields).',
     note='Trusted: engine/, z3, A-SPEC (rules transliterated from the language reference; validated against real calls), cfg.Variable '
          'operations as opaque constructors, preconditions: no *args/**kwargs at the call site, well-formed signature, visible named args. '
-         'InterpreterFunction overrides of argcount/get_nondefault_params, overload choice, PyTDFunction binding: unverified surround.',
+         'InterpreterFunction overrides of argcount/get_nondefault_params, overload choice, PyTDFunction binding: unverified surround. InterpreterFunction instance: precondition that the code object lists the parameter names the signature was built from (_build_signature is unverified surround: a contract for it was withdrawn because two obligations were unstable).',
     technique='contract-based deductive verification: Python ast -> VC generator (loop invariants, anchored lemmas) -> z3',
     design='3 C13')
 
@@ -129,7 +129,7 @@ CLAIMED['C11'] = dict(
          'no duplicates), and joining the members of a result gives the same result (idempotence, proved as a lemma over the contract). '
          'All optimiser passes (CombineContainers, CombineReturnsAndExceptions, superclass simplification, CollapseLongUnions, ...) and '
          'Optimize as a whole are covered only by a bounded sweep against a finite value model (widening and idempotence). '
-         'Known finding F8: Optimize is not idempotent when signatures coincide only after a later pass. Frame obligation: no module- or class-level mutable state written by functions and no process-wide memo in the four optimiser modules; a native history check optimises the same stubs in two orders in two processes. Known finding F14: a nested class sharing its bare name with a top-level class narrows a union.',
+         'Known finding F8: Optimize is not idempotent when signatures coincide only after a later pass. Frame obligation: no module- or class-level mutable state written by functions and no process-wide memo in the four optimiser modules; a native history check optimises the same stubs in two orders in two processes. Known finding F14: a nested class sharing its bare name with a top-level class narrows a union. Second theory: optimize.CombineReturnsAndExceptions (_ReturnsAndExceptions.Update, _GroupByArguments, VisitFunction) over heap collector objects: every signature keeps a counterpart with the same parameters whose return type admits at least what it admitted and nothing the signatures with those parameters did not admit.',
     note='Trusted: engine/, z3, A-EQ (node equality is an equivalence respected by node functions), A-DEN, A-CTOR (UnionType(...) flattens '
          'and de-duplicates: pytd._FlattenTypes assumed), A-LIB (deque as list). Unverified surround: every visitor class of optimize.py, '
          'visitors.py, the pass pipeline.',
@@ -143,7 +143,7 @@ CLAIMED['C19'] = dict(
          'step, and every entry of the step\'s imports map is the default stub or the output of a step it transitively declares as a '
          'dependency (so no schedule that respects the declared edges reads a stub before it is produced), for every sequence of items in '
          'dependency order incl. two-pass cycles. The order of the yielded items (yield_sorted_modules), the text written to build.ninja / '
-         '*.imports, path escaping and the exactly-one-check clause are covered only by a bounded sweep (real files parsed back).',
+         '*.imports, path escaping and the exactly-one-check clause are covered only by a bounded sweep (real files parsed back). Second theory: PytypeRunner.yield_sorted_modules (generator verified as a list builder) meets the contract the plan theory assumes: every dependency of a yielded item is the module of an earlier item.',
     note='Trusted: engine/, z3, A-EQ (modules compared by value), A-IO (ghost records = text written), A-FRESH (distinct output / imports '
          'file names), A-PATH (no output equals default.pyi), A-NINJA, A-GEN (generator consumed as a list), assumed contract of '
          'yield_sorted_modules (dependency order; sampled natively). Unverified surround: deps_from_import_graph, escape_ninja_path, '
